@@ -30,6 +30,31 @@ func oracle(stAny any, f []string, out string) (string, string) {
 		return direct(st.kind, st.desc, st.opsInOrder())
 	case "attack-nolin":
 		return "", "" // outside the quantifier: ResetConn is not a history operation (reported in the evidence)
+	case "trend":
+		// the trace the hook recorded inside client.call and the history stamped
+		// around the client methods are two recordings of the same run: every
+		// completed operation with its reply must appear in both
+		var hist, tr []string
+		for _, o := range st.ops {
+			if o.done {
+				hist = append(hist, normOp(o.op)+" => "+strings.Join(o.out, " "))
+			}
+		}
+		for _, p := range st.trPairs {
+			if !strings.HasPrefix(p, "version ") {
+				tr = append(tr, p)
+			}
+		}
+		sort.Strings(hist)
+		sort.Strings(tr)
+		if len(hist) != len(tr) {
+			return "trace-history-mismatch", fmt.Sprintf("%d completed operations in the history, %d in the trace, in %s", len(hist), len(tr), st.desc)
+		}
+		for i := range hist {
+			if hist[i] != tr[i] {
+				return "trace-history-mismatch", fmt.Sprintf("history has %q where the trace has %q, in %s", hist[i], tr[i], st.desc)
+			}
+		}
 	}
 	return "", ""
 }
